@@ -989,6 +989,12 @@ class NumpyModel:
 
     def store_subscript(self, interp, st, frame, target, base, idx, value, aug):
         tv = target.value
+        if isinstance(tv, ast.Attribute) and tv.attr == 'flat' and base.ty == 'ndarray' and base.flat_view:
+            # x.flat[np.flatnonzero(mask)] = v is x[mask] = v
+            tv = tv.value
+            base = base.w(flat_view=None)
+            if idx is not None and idx.nonzero_of is not None and idx.nonzero_of.dtype == 'bool':
+                idx = idx.nonzero_of
         name = tv.id if isinstance(tv, ast.Name) else None
         if base.ty == 'ndarray':
             # closer idiom: x[x == 1] = 0 / x[x >= 1] = 0 on a closed wrap
@@ -1093,6 +1099,8 @@ class NumpyModel:
             return AV(ty='int', deps=base.deps, sizeof=base.only('maybe_empty', 'axes'))
         if attr == 'real' or attr == 'imag':
             return base
+        if attr == 'flat':
+            return base.w(flat_view=True)  # 1-D view of the same memory: x.flat[k] = v writes x
         if attr == 'dtype':
             return AV(ty='dtype')
         if attr in ('reshape', 'astype', 'copy', 'flatten', 'ravel', 'sum', 'mean', 'std', 'min', 'max', 'any', 'all',
